@@ -30,6 +30,38 @@ status_t TemplatingMessageIOGateway :: GetBodySize(const uint8 * headerBuf, uint
    else return B_BAD_DATA;
 }
 
+// Returns true iff (msg) has exactly the layout that (templateMsg) describes:  the same flattenable fields in the same
+// order, with the same type codes and item counts, and likewise for any sub-Messages.  TemplateHashCode64() can't
+// guarantee that by itself, since differently-laid-out Messages can have the same hash code (eg fields whose
+// type code is zero don't contribute to it at all)
+static bool DoesMessageMatchTemplate(const Message & msg, const Message & templateMsg)
+{
+   MessageFieldNameIterator tIter = templateMsg.GetFieldNameIterator();
+   for (MessageFieldNameIterator mIter = msg.GetFieldNameIterator(); mIter.HasData(); mIter++)
+   {
+      const String & fn = mIter.GetFieldName();
+
+      uint32 mType, mCount;
+      if (msg.GetInfo(fn, &mType, &mCount).IsError()) return false;
+      if ((mType == B_POINTER_TYPE)||(mType == B_TAG_TYPE)) continue;  // non-flattenable fields aren't represented in the template
+
+      uint32 tType, tCount;
+      if ((tIter.HasData() == false)||(tIter.GetFieldName() != fn)||(templateMsg.GetInfo(fn, &tType, &tCount).IsError())||(tType != mType)||(tCount != mCount)) return false;
+
+      if (mType == B_MESSAGE_TYPE)
+      {
+         for (uint32 i=0; i<mCount; i++)
+         {
+            ConstMessageRef mSub, tSub;
+            if ((msg.FindMessage(fn, i, mSub).IsError())||(templateMsg.FindMessage(fn, i, tSub).IsError())||(DoesMessageMatchTemplate(*mSub(), *tSub()) == false)) return false;
+         }
+      }
+
+      tIter++;
+   }
+   return (tIter.HasData() == false);
+}
+
 ByteBufferRef TemplatingMessageIOGateway :: FlattenHeaderAndMessage(const MessageRef & msgRef) const
 {
    if (msgRef() == NULL) return ByteBufferRef();
@@ -40,9 +72,17 @@ ByteBufferRef TemplatingMessageIOGateway :: FlattenHeaderAndMessage(const Messag
    const bool isMessageTrivial = (msgRef()->GetNumNames() == 0);  // what-code only Messages can be sent in just 4 bytes
    if ((isMessageTrivial == false)&&(IsOkayToTemplatizeMessage(*msgRef())))
    {
-      templateID     = msgRef()->TemplateHashCode64();
-      templateMsgRef = _outgoingTemplates.GetAndMoveToFront(templateID);
-      if (templateMsgRef == NULL)
+      templateID = msgRef()->TemplateHashCode64();
+
+      const MessageRef * cachedTemplate = _outgoingTemplates.Get(templateID);
+      if (cachedTemplate)
+      {
+         // Only use the cached template if it really describes this Message's layout.  If it doesn't (ie a different kind of Message
+         // happens to have the same hash code) we send this Message the old way and leave the cache exactly as it is, so that it
+         // stays in step with the receiver's cache.
+         if (DoesMessageMatchTemplate(*msgRef(), *cachedTemplate->GetItemPointer())) templateMsgRef = _outgoingTemplates.GetAndMoveToFront(templateID);
+      }
+      else
       {
          // demand-allocate a template-Message for us to cache and use in the future
          // Note that I'm deliberately leaving (templateMsgRef) set to NULL here, though
